@@ -144,6 +144,24 @@ def run(ctx):
     ctx.ob('C17.R1', 'set_bond_distance:rescale-to-table-length', ok,
            'set_bond_distance returns its vector rescaled to bond_lengths[element] (1.0 only as the '
            'fallback for an element without entry); returns: %s' % found, pmod, sbd)
+    # ... and that fallback is never taken: the construction routines are entered
+    # only for an element that has an entry (a hydrogen on Se, P or a metal ion at
+    # an invented 1.000 A is not at a tabulated length)
+    adp = pmod.func('Protonate.add_protons')
+    aparam = params_of(adp)[0]
+    disp = [c for c in calls_in(adp, nested=False) if isinstance(c.func, ast.Subscript)
+            and norm(c.func.value) == 'self.protonation_methods']
+    guarded = bool(disp) and all(
+        any(pol and isinstance(e, ast.Compare) and isinstance(e.ops[0], ast.In)
+            and norm(e.left) == aparam + '.element'
+            and norm(e.comparators[0]).replace('list(', '').replace('.keys())', '').replace('.keys()', '')
+            == 'self.bond_lengths' for e, pol in facts_at(c, adp)) for c in disp)
+    other_callers = sorted({q for m2, q, f2 in prog.all_funcs() for c in calls_in(f2, nested=False)
+                            if last_attr(c) in ('trigonal', 'tetrahedral') and q != 'Protonate.add_protons'})
+    ctx.ob('C17.R1', 'construction:only-for-tabulated-elements', guarded and not other_callers,
+           'add_protons hands an atom to trigonal/tetrahedral only when its element has an X-H length in '
+           'bond_lengths (%d dispatching calls; other callers of the construction routines: %s)'
+           % (len(disp), other_callers), pmod, disp[0] if disp else adp)
     bl = penv.get('self.bond_lengths')
     ok = isinstance(bl, dict) and all(e in bl and isinstance(bl[e], (int, float)) and 0.8 < bl[e] < 1.7
                                       for e in ('N', 'C', 'O', 'S'))
@@ -168,6 +186,58 @@ def run(ctx):
         ok = ok and good
     ctx.ob('C17.R1', 'rescale:length', ok,
            'Vector.rescale multiplies every component by new_length / length', va, rs)
+
+    # a direction obtained by adding up unit vectors to the neighbours is tested
+    # for cancellation before it is used: for a linear two-neighbour centre or a
+    # symmetric planar three-neighbour centre the sum is zero or rounding noise,
+    # the rescaled "direction" then points anywhere (or divides by zero) and a
+    # zero rotation axis makes the helper turn about the laboratory z axis
+    n_sums = 0
+    for qual in ('Protonate.trigonal', 'Protonate.tetrahedral'):
+        fn = pmod.func(qual)
+        units = {st.targets[0].id for st in walk_no_nested(fn) if isinstance(st, ast.Assign)
+                 and isinstance(st.targets[0], ast.Name) and isinstance(st.value, ast.Call)
+                 and last_attr(st.value) == 'rescale' and try_fold(st.value.args[0]) == 1.0}
+
+        def terms(e):
+            if isinstance(e, ast.BinOp) and isinstance(e.op, (ast.Add, ast.Sub)):
+                l, r = terms(e.left), terms(e.right)
+                return None if l is None or r is None else l + r
+            if isinstance(e, ast.UnaryOp) and isinstance(e.op, (ast.USub, ast.UAdd)):
+                return terms(e.operand)
+            if isinstance(e, ast.Name) and e.id in units:
+                return [e.id]
+            return None
+        for st in walk_no_nested(fn):
+            if not (isinstance(st, ast.Assign) and isinstance(st.targets[0], ast.Name)):
+                continue
+            ts = terms(st.value)
+            if ts is None or len(ts) < 2:
+                continue
+            n_sums += 1
+            var = st.targets[0].id
+            # uses of the sum up to its next re-binding, in the same block
+            blk = st._parent
+            body = blk.body if st in getattr(blk, 'body', []) else getattr(blk, 'orelse', [])
+            later = body[body.index(st) + 1:]
+            unguarded = []
+            for nxt in later:
+                rebound = isinstance(nxt, ast.Assign) and norm(nxt.targets[0]) == var
+                for n in ast.walk(nxt):
+                    if isinstance(n, ast.Name) and n.id == var and isinstance(n.ctx, ast.Load):
+                        par = n._parent
+                        in_test = isinstance(par, ast.Attribute) and par.attr == 'length'
+                        facts = [norm(e) for e, _p in facts_at(n, fn)]
+                        if not in_test and not any('%s.length()' % var in t for t in facts):
+                            unguarded.append(n)
+                if rebound:
+                    break
+            ctx.ob('C17.R5', 'sum-of-unit-vectors-tested:%s:%s' % (qual, anorm(st, fn)[:50]), not unguarded,
+                   'the sum %s of unit vectors to the neighbours is used as a direction or axis only '
+                   'after a test of its length (%d uses without)' % (norm(st.value), len(unguarded)),
+                   pmod, unguarded[0] if unguarded else st)
+    ctx.need('C17.R5', 3)
+    ctx.note('direction_sums', n_sums)
 
     # ------------------------------------------------------------------ R2
     ap = pmod.func('Protonate.add_proton')
